@@ -223,6 +223,9 @@ def tasks(tier, seed):
     if tier == 'quick':
         for i in range(6):
             t.append(('hyp_lists', dict(n=120)))
+        for m in (50, 20000):
+            # "the configured maximum": the application changed it after the library was imported
+            t.append(('hyp_lists', dict(n=60, maxlen=m)))
     else:
         for i in range(12):
             t.append(('hyp_lists', dict(n=600)))
